@@ -938,6 +938,14 @@ func genPersist(id int) O {
 			a.Nodes["n1"].Act = append(a.Nodes["n1"].Act, mach.Op{Name: "throw"})
 			a.AEN = "n2"
 		}
+		if p(0.15) {
+			// what the extended interpreter's _.match returned, kept in the bindings and looked into later
+			a.Nodes["n1"].Act = []mach.Op{{Name: "matchstore", K: "found"}}
+			a.Nodes["n3"] = &mach.ANode{BType: "bindings", Branches: []mach.ABranch{{HasPat: true, Pat: map[string]interface{}{"found": map[string]interface{}{}}, Target: "n4"}, {Target: "n0"}}}
+			a.Nodes["n4"].Act = []mach.Op{{Name: "emit", V: "found"}}
+			a.Nodes["n2"].Branches = []mach.ABranch{{Target: "n3"}}
+			a.AEN = ""
+		}
 		if p(0.25) {
 			// an inequality variable whose bound an action computed; a later message is compared with it
 			ineq := pickS([]string{"?<lim", "?<=lim", "?>lim", "?>=lim", "?!=lim"})
